@@ -63,14 +63,17 @@ structure Fixes where
   /-- D10: the first attempt grows by at least one element and a reduced factor that no longer grows
   the array (`new_len <= *prev_len`) is a failure -/
   d10 : Bool
+  /-- D11 (64-bit index builds): the three `int_t` pointer arrays xlsub, xlusup, xusub are taken from a
+  workspace with `(n+1)*sizeof(int_t)` bytes instead of `(n+1)*sizeof(int)` -/
+  d11 : Bool
 deriving Repr, DecidableEq, Inhabited
 
 /-- the pinned tree -/
-def asIs : Fixes := ⟨false, false, false⟩
+def asIs : Fixes := ⟨false, false, false, false⟩
 /-- every repair -/
-def fixed : Fixes := ⟨true, true, true⟩
-/-- /repo after the `fix:` commits ba17e55 (D3) and 1d60195 (D10); D7 still open -/
-def current : Fixes := ⟨true, false, true⟩
+def fixed : Fixes := ⟨true, true, true, true⟩
+/-- /repo after the `fix:` commits ba17e55 (D3), 1d60195 (D10) and c7d64d2 (D11); D7 still open -/
+def current : Fixes := ⟨true, false, true, true⟩
 
 /-! ### `(int_t)(alpha * prev_len)` with `float alpha = 1 + 2^-k` -/
 
@@ -378,13 +381,14 @@ def setupSpace (c : Cfg) : St :=
   else { user := true, base4 := c.base4, n := c.n, top2 := (c.lwork / 4) * 4, size := (c.lwork / 4) * 4 }
 
 /-- the five pointer arrays xsup, supno, xlsub, xlusup, xusub at the head of the workspace
-(dmemory.c:249-253); `hdrOk` records whether all five calls returned non-NULL -/
-def hdrAlloc (hb : Int) (s0 : St) : St :=
+(dmemory.c:249-253): xsup, supno are `int[n+1]` (`hb` bytes each), xlsub, xlusup, xusub are `int_t[n+1]`
+(`hbl` bytes each once D11 is repaired); `hdrOk` records whether all five calls returned non-NULL -/
+def hdrAlloc (hb hbl : Int) (s0 : St) : St :=
   let a1 := userMallocHead hb s0
   let a2 := userMallocHead hb a1.1
-  let a3 := userMallocHead hb a2.1
-  let a4 := userMallocHead hb a3.1
-  let a5 := userMallocHead hb a4.1
+  let a3 := userMallocHead hbl a2.1
+  let a4 := userMallocHead hbl a3.1
+  let a5 := userMallocHead hbl a4.1
   { a5.1 with hdrOk := a1.2.isSome && a2.2.isSome && a3.2.isSome && a4.2.isSome && a5.2.isSome,
               hdrEnd := a5.1.top1 }
 
@@ -405,7 +409,8 @@ def memInit (fx : Fixes) (fail : Nat → Bool) (c : Cfg) : InitRes :=
   let nz := c.fill * c.annz
   let s0 := setupSpace c
   -- the five pointer arrays (unchecked on the pinned tree)
-  let s1 : St := if s0.user = false then s0 else hdrAlloc ((c.n + 1) * w.iw) s0
+  let s1 : St := if s0.user = false then s0
+    else hdrAlloc ((c.n + 1) * w.iw) ((c.n + 1) * (if fx.d11 = true then w.liw else w.iw)) s0
   if fx.d3 = true ∧ s1.hdrOk = false then
     { st := s1, info := memoryUsage w nz nz nz c.n + c.n }
   else
@@ -454,8 +459,9 @@ def growUntil (fx : Fixes) (w : Words) (fail : Nat → Bool) (t : MemType) (need
 /-- `(offset, byte length)` of every array that lives in the caller's buffer -/
 def St.blocks (w : Words) (s : St) : List (Int × Int) :=
   let hb := (s.n + 1) * w.iw
-  [ (s.hdrEnd - 5 * hb, hb), (s.hdrEnd - 4 * hb, hb), (s.hdrEnd - 3 * hb, hb), (s.hdrEnd - 2 * hb, hb),
-    (s.hdrEnd - hb, hb),
+  let hl := (s.n + 1) * w.liw
+  [ (s.hdrEnd - 3 * hl - 2 * hb, hb), (s.hdrEnd - 3 * hl - hb, hb), (s.hdrEnd - 3 * hl, hl), (s.hdrEnd - 2 * hl, hl),
+    (s.hdrEnd - hl, hl),
     (s.offL, s.capL * w.dw), (s.offU, s.capU * w.dw), (s.offS, s.capS * w.liw), (s.offB, s.capB * w.liw),
     (s.dwork, s.dworkLen), (s.iwork, s.iworkLen) ]
 
